@@ -675,6 +675,19 @@ impl<'a> RustGraph<'a> {
                     let Some(ext) = self.table.get(&k).cloned() else {
                         return self.broken(id, format!("unresolved external path `{k}`"));
                     };
+                    // `Cow<'a, B>` has a lifetime parameter; written with a type argument only it is not a type a
+                    // field can have (rustc E0106), so it has no shape either
+                    if matches!(ext, Extern::Cow) {
+                        let has_lifetime = match p.path.segments.last().map(|s| &s.arguments) {
+                            Some(syn::PathArguments::AngleBracketed(a)) => {
+                                a.args.iter().any(|g| matches!(g, syn::GenericArgument::Lifetime(_)))
+                            }
+                            _ => false,
+                        };
+                        if !has_lifetime {
+                            return self.broken(id, format!("`{k}` without its lifetime argument is not a type"));
+                        }
+                    }
                     self.extern_node(id, &ext, &args, module, depth, &k)
                 } else {
                     let segs: Vec<String> = p
